@@ -658,7 +658,6 @@ func (c *e2eCtx) runThrGrid(u *thrUnit, r *rand.Rand, sink *c08Sink) {
 	runStage("clean", "", u.cleanBase)
 }
 
-
 // threadsSingleFile: the smallest pool there is — exactly ONE changed file (a large entry file).
 // With one task the pools' bookkeeping (wait groups, result channels, early exits) has no other
 // worker to hide behind: the tree of every thread count must equal the tree of threads = 1.
